@@ -428,10 +428,15 @@ def units(tier, seed):
         out.append(("named", {"names": names[i::4], "examples": 500 if q else 8000}))
     for i in range(3):
         out.append(("history", {"curve": ("t13", "t23a", "t13")[i], "examples": 150 if tier == "quick" else 4000, "steps": 40, "label": "h%d" % i}))
+    out.append(("inject", {"level": 'points', "curve": 't23a', "max_points": 300 if tier == "quick" else 6000}))
     return out
 
 
 def run_unit(ctx, name, **kw):
+    if name == "inject":
+        from . import inject
+        inject.run(ctx, **kw)
+        return
     if name == "history":
         # histories over live point objects (cached / in-place state, failed operations): the C19 machine
         from . import c19
@@ -478,6 +483,10 @@ def replay_ordered(ctx, case):
 
 
 def replay(ctx, case):
+    if case.get("kind") == "inject":
+        from . import inject
+        inject.replay(ctx, case)
+        return
     if case.get("kind") == "history":
         from . import c19
         return c19.replay(ctx, case)
